@@ -421,6 +421,20 @@ def check_formats(ctx, pr, tf, table, opens, closes):
     splits = [c for c in ast.walk(pc.node) if isinstance(c, ast.Call)
               and (method_call(c, 'split') or method_call(c, 'partition'))
               and U(method_call(c)[0]) == pc.params[0]]
+    # ... or in a helper the leaf parser hands its text to
+    for c in ast.walk(pc.node):
+        g = prog.callee_of(pc, c) if isinstance(c, ast.Call) else None
+        if g is not None and g.module is pc.module and g.params and \
+                c.args and U(c.args[0]) == pc.params[0]:
+            splits += [d for d in ast.walk(g.node) if isinstance(d, ast.Call)
+                       and (method_call(d, 'split')
+                            or method_call(d, 'partition'))
+                       and U(method_call(d)[0]) == g.params[0]]
+    if not splits:
+        raise AnalysisError(
+            'the leaf parser %s does not split its text with split() / '
+            'partition() (neither itself nor in a helper it hands the text '
+            'to): where it cuts kind from match is not read' % pc.qual)
     sep_ok = bool(splits) and all(c.args and is_const(c.args[0], sep)
                                   and (method_call(c, 'partition') or
                                        is_const(kwarg(c, 'maxsplit', 1), 1))
